@@ -29,7 +29,8 @@
    helper broadcasts under the mutex since fixes_pending/C07-helper-broadcast-locked.diff (Monitor.v's
    `helper_locked = true`; the shape before, `<-ctx.Done(); cond.Broadcast()`, is `helper_locked = false`). *)
 From FunV Require Import Base.Tac Conc.Monitor.
-From Coq Require Import Floats.
+From Coq Require Import PrimFloat.
+From Coq Require Uint63.
 
 Arguments dat {Data}.  Arguments lock {Data}.  Arguments thr {Data}.  Arguments ended {Data}.
 Arguments helper {Data}.  Arguments pendingB {Data}.  Arguments mkState {Data}.
